@@ -71,7 +71,7 @@ fn project(t: &Trace, a: Aid) -> Trace {
                 }
                 *x == a
             }
-            Event::Collect { a: x, .. } | Event::SetPacing { a: x, .. } | Event::AdjustDebt { a: x, .. } | Event::NewArena { a: x, .. } | Event::DropArena { a: x } => *x == a,
+            Event::Collect { a: x, .. } | Event::SetPacing { a: x, .. } | Event::AdjustDebt { a: x, .. } | Event::NewArena { a: x, .. } | Event::DropArena { a: x } | Event::Rootless { a: x, .. } => *x == a,
             Event::Handle { h, op } => {
                 let k = hids.contains(h);
                 if k {
